@@ -88,6 +88,8 @@ def gen_op(rng, state):
         return {"op": "import_v1", "slot": k, "times": rng.randint(1, 3), "order": rng.choice(["asc", "desc"]), "via_json": rng.random() < 0.5,
                 "drop": [x for x in ("mask", "path", "label", "uuid") if rng.random() < 0.3]}
     if op == "read":
+        if rng.random() < 0.4:
+            return {"op": "deepcopy", "slot": k}
         return {"op": "read_views", "slot": k}
     if op == "refused_ctor":
         return {"op": "refused_construct", "kind": rng.choice(["dup_freq", "unequal", "empty", "mask_key_str", "mask_val_int", "mask_not_dict"])}
@@ -149,6 +151,12 @@ def _check_slot(ds, model):
             return "view-mismatch", f"get_magnitudes(masked={m}) disagrees with the impedances of the same view"
         if gph.shape != eZ.shape:
             return "view-mismatch", f"get_phases(masked={m}) has {gph.shape[0]} entries for {len(pts)} points"
+        re_, nim = ds.get_nyquist_data(masked=m)
+        bf, bmag, bph = ds.get_bode_data(masked=m)
+        if len(re_) != len(pts) or len(nim) != len(pts) or not np.allclose(re_, eZ.real, rtol=1e-12, atol=0.0) or not np.allclose(nim, -eZ.imag, rtol=1e-12, atol=0.0):
+            return "view-mismatch", f"get_nyquist_data(masked={m}) disagrees with the points of that view"
+        if len(bf) != len(pts) or not np.array_equal(np.array(bf, dtype=float), ef) or not np.allclose(bmag, np.abs(eZ), rtol=1e-12, atol=0.0) or len(bph) != len(pts):
+            return "view-mismatch", f"get_bode_data(masked={m}) disagrees with the points of that view (frequency and impedance no longer belong together)"
     mask = ds.get_mask()
     if sorted(mask) != list(range(len(model))):
         return "mask-keys", f"get_mask() keys {sorted(mask)} != 0..{len(model) - 1}"
@@ -340,6 +348,10 @@ def apply(state, rec):
                 if r:
                     return _viol(r[0], rec, f"import #{k + 1} of one version-1 dictionary: {r[1]}")
             _add_slot(state, last, model)
+        elif op == "deepcopy":
+            stats["restarts"]["deepcopy"] += 1
+            ds2 = copy.deepcopy(s["ds"])
+            _add_slot(state, ds2, [list(t) for t in s["model"]])
         elif op == "read_views":
             # a pure read of every view (fills whatever caches the implementation keeps)
             _views(s["ds"])
